@@ -297,6 +297,18 @@ def token_spec(rng, idx):
             add_fn(ind + "  ", allow_overload=False)
         if not template and rng.random() < 0.3:
             add_enum(ind + "  ")
+        if not template and rng.random() < 0.35:
+            # a data member: C and Fortran get accessor functions, Python a descriptor
+            over = {}
+            if rng.random() < 0.7:
+                (oc, of) = rng.choice(CF_DOMAIN)
+                over = {"c": oc, "fortran": of}
+                if rng.random() < 0.5:
+                    over["python"] = rng.random() < 0.5
+                if over.get("fortran") and not over.get("c"):
+                    over["c"] = True
+            entries.append({"kind": "var", "indent": ind + "  ", "name": "zq%dmv%s" % (idx, "abcd"[ncls[0] % 4]),
+                            "over": over})
         if not template and rng.random() < 0.4:
             # a method that returns "this" (documented field return_this: True)
             tok = "zq%dfn%dx" % (idx, counter[0])
@@ -405,13 +417,16 @@ def render_token_library(spec, wp, wl):
                                  "lua": False, "shape": "class-template" if e.get("template") else e["what"],
                                  "lua_unsupported": True, "members": 0}
             continue
-        if e["kind"] == "enum":
+        if e["kind"] in ("enum", "var"):
             ind = e["indent"]
             depth = len(ind) // 2
             while stack and stack[-1][0] > depth:
                 stack.pop()
             up = e["name"].upper()
-            lines.append("%s- decl: enum %s { %s_ONE, %s_TWO = 5 }" % (ind, e["name"], up, up))
+            if e["kind"] == "var":
+                lines.append("%s- decl: int %s" % (ind, e["name"]))
+            else:
+                lines.append("%s- decl: enum %s { %s_ONE, %s_TWO = 5 }" % (ind, e["name"], up, up))
             eff = dict(stack[-1][2]) if stack else dict(lf)
             if e["over"]:
                 lines.append("%s  options:" % ind)
@@ -422,7 +437,7 @@ def render_token_library(spec, wp, wl):
             if eff["fortran"] and not eff["c"]:
                 return None
             tokens[e["name"]] = {"c": bool(eff["c"]), "fortran": bool(eff["fortran"]), "python": bool(eff["python"]),
-                                 "lua": False, "shape": "enum", "lua_unsupported": True, "members": 1}
+                                 "lua": False, "shape": e["kind"], "lua_unsupported": True, "members": 1}
             on_langs.update(l for l in LANGS if eff[l] and l != "lua")
             for (_d, cname, _b) in stack:
                 t = tokens[cname]
